@@ -43,7 +43,14 @@ fn bytes_of(v: &Value) -> Vec<u8> {
 }
 
 /// Leaves exactly `k` bytes in the arena's current chunk.
-fn prep_arena(arena: &mut ByteArena, k: i64) {
+pub fn prep_arena(arena: &mut ByteArena, k: i64) {
+    if k == -2 {
+        // an arena whose current chunk is already at the maximum size of the growth sequence, barely used
+        arena.ensure_capacity(1 << 20);
+        let filler = [0x55u8; 10];
+        let _ = arena.read_n(&filler[..], 10, NonZeroUsize::MAX).expect("filler read");
+        return;
+    }
     if k < 0 {
         return;
     }
